@@ -41,7 +41,7 @@ def budget(tier):
 # forwarded; the promise is the same - whatever a bus's dispatch() returned for is processed by that bus.
 from bvt.gen import Profile, scenario  # noqa: E402
 
-P_MULTI = Profile(min_buses=2, max_buses=3, par=0.2, fwd=0.3, fan=0.25, hist=[None, 50, 50], maxdepth=[1, 2], wild=0.15, raises=0.1, max_actors=3, max_actor_ops=6, actor_ops=['disp', 'disp', 'dispany', 'sleep', 'await', 'await', 'redisp', 'redisp', 'redisp', 'yield'], dual=0.2)
+P_MULTI = Profile(twin=0.15, min_buses=2, max_buses=3, par=0.2, fwd=0.3, fan=0.25, hist=[None, 50, 50], maxdepth=[1, 2], wild=0.15, raises=0.1, max_actors=3, max_actor_ops=6, actor_ops=['disp', 'disp', 'dispany', 'sleep', 'await', 'await', 'redisp', 'redisp', 'redisp', 'yield'], dual=0.2)
 
 
 def _run_engine_case(sc):
@@ -79,6 +79,8 @@ def _run_engine_case(sc):
         for ptag, s in F.final.items():
             if any(ev in rr['kids'] for rr in s['results']):
                 viol.append(('C14.c', f'dispatch of event {ev} inside a handler of event {ptag} was refused ({r.get("exc")}) but it is recorded as a child of that event'))
+    if any(r['k'] == 'disp' and r.get('twin') and r.get('rep') and r.get('ok') for r in F.tr):
+        cl.append('replica-and-original-queued-on-one-bus')
     nrej = len(refused)
     if nrej:
         cl.append('rejection')
